@@ -1,6 +1,6 @@
 """Behaviour-preserving rewrites of the whole source tree, fed to every check as an overlay: any violation or analysis error is a false alarm.
 
-usage: robustness.py [reformat|rename-locals|both] [props...]
+usage: robustness.py [reformat|rename-locals|both|suppress-to-try|invert-if|all] [props...]
 
 reformat       every module re-emitted by ast.unparse (comments gone, layout and quoting changed, line numbers shifted)
 rename-locals  every local variable of every function (assigned there, not a parameter, not global/nonlocal, not used by a nested scope) gets a
@@ -91,19 +91,53 @@ def rename_locals(tree: ast.Module) -> int:
     return count
 
 
+class _SuppressToTry(ast.NodeTransformer):
+    """`with suppress(A, B): body`  ->  `try: body / except (A, B): pass` (same behaviour, the other common spelling)."""
+
+    count = 0
+
+    def visit_With(self, n: ast.With) -> ast.AST:  # noqa: N802
+        self.generic_visit(n)
+        if len(n.items) == 1 and n.items[0].optional_vars is None and isinstance(n.items[0].context_expr, ast.Call) \
+                and isinstance(n.items[0].context_expr.func, ast.Name) and n.items[0].context_expr.func.id == "suppress" and not n.items[0].context_expr.keywords:
+            args = n.items[0].context_expr.args
+            typ = args[0] if len(args) == 1 else ast.Tuple(elts=list(args), ctx=ast.Load())
+            type(self).count += 1
+            return ast.copy_location(ast.Try(body=n.body, handlers=[ast.ExceptHandler(type=typ, name=None, body=[ast.Pass()])], orelse=[], finalbody=[]), n)
+        return n
+
+
+class _InvertIf(ast.NodeTransformer):
+    """`if c: A else: B`  ->  `if not c: B else: A` (for plain if/else, not elif chains)."""
+
+    count = 0
+
+    def visit_If(self, n: ast.If) -> ast.AST:  # noqa: N802
+        self.generic_visit(n)
+        if n.orelse and not (len(n.orelse) == 1 and isinstance(n.orelse[0], ast.If)) and not any(isinstance(x, ast.NamedExpr) for x in ast.walk(n.test)):
+            type(self).count += 1
+            test = n.test.operand if isinstance(n.test, ast.UnaryOp) and isinstance(n.test.op, ast.Not) else ast.UnaryOp(op=ast.Not(), operand=n.test)
+            return ast.copy_location(ast.If(test=test, body=n.orelse, orelse=n.body), n)
+        return n
+
+
 def build_overlay(mode: str) -> dict[str, str]:
     overlay: dict[str, str] = {}
     total = 0
     for path in sorted((REPO / "src" / "_griffe").rglob("*.py")):
         rel = str(path.relative_to(REPO))
         tree = ast.parse(path.read_text(encoding="utf8"))
-        if mode in ("rename-locals", "both"):
+        if mode in ("rename-locals", "both", "all"):
             total += rename_locals(tree)
+        if mode in ("suppress-to-try", "all"):
+            tree = _SuppressToTry().visit(tree)
+        if mode in ("invert-if", "all"):
+            tree = _InvertIf().visit(tree)
         ast.fix_missing_locations(tree)
         text = ast.unparse(tree) + "\n"
         compile(text, rel, "exec", dont_inherit=True)
         overlay[rel] = text
-    print(f"overlay: {len(overlay)} modules re-emitted, {total} local variables renamed")
+    print(f"overlay: {len(overlay)} modules re-emitted, {total} local variables renamed, {_SuppressToTry.count} suppress blocks turned into try/except, {_InvertIf.count} if/else inverted")
     return overlay
 
 
